@@ -31,6 +31,9 @@ RULE = ('Configurations over vt callables (Config/Partial/ArgFactory, tags, Tagg
         'attribute walks, side-effecting module, arbitrary node types, broken refs) under a '
         'restrictive policy. Non-trivial: dump accepted and >=1 Buildable or hostile leaf; '
         'distinct = canonical form hash.')
+RULE_ADDITIONS = (' Added by the rounds of seeded changes (DESIGN 9.7): ' +
+                  'invalid-json:special-float | bare NaN/Infinity tokens | known (wire-format change)')
+RULE = RULE + RULE_ADDITIONS
 ASSUMPTIONS = [
     'strict JSON = json.loads with parse_constant rejecting NaN/Infinity (RFC 8259)',
     'a value for which dump_json raises satisfies "loud"',
